@@ -381,6 +381,32 @@ def edge_tours(edges, inits, max_len=400):
 
 # --------------------------------------------------------------------------- findings / verdict
 
+def random_walks(edges, inits, n, length, sd):
+    """Seeded random walks of the exported graph (same shape as edge_tours' runs).  Edge tours cover every transition from
+    model-conformant states; long random walks add HISTORIES (the same object used many times in varied orders), which
+    matter when the code carries state that the model does not (a counter, a cache)."""
+    import random
+    rnd = random.Random(sd)
+    out = {}
+    for e in edges:
+        out.setdefault(canon(e["from"]), []).append(e)
+    starts = [i for i in inits if canon(i) in out] or inits
+    runs = []
+    for _ in range(n):
+        init = rnd.choice(starts)
+        node, steps = canon(init), []
+        for _ in range(length):
+            succ = out.get(node)
+            if not succ:
+                break
+            e = rnd.choice(succ)
+            steps.append(e)
+            node = canon(e["to"])
+        if steps:
+            runs.append((init, steps))
+    return runs
+
+
 def load_known():
     p = os.path.join(VERIF, "known_findings.json")
     if not os.path.exists(p):
